@@ -13,6 +13,7 @@ import json
 import os
 
 import fw
+import progs
 from fw import gN, glist, gbool
 from props import c02
 from props.c02 import RT, Lit, opcode
@@ -21,6 +22,39 @@ import c03_coqschema as cj
 
 # documents above this size (bytes of JSON text) are judged by python-jsonschema only (Coq elaboration cost)
 MAX_COQ_DOC = 200_000
+
+
+STATIC_SOURCES = ("Const", "FuncDefn", "FuncDecl")
+
+
+def static_clauses(case, o):
+    """(static_edges_ok applies, static_wired_ok applies) for one observed HUGR (coq/spec/StaticWiringS.v).
+    The clauses speak about links the builder API made.  A raw add_link mutation whose source is (or may be) a
+    static output can attach it to any port; a delete_node / delete_link mutation can unwire a static input.
+    Neither makes the document wrong, so the clause is switched off for that HUGR."""
+    muts = o.get("muts") or []
+    deleted = any(m[0] in ("delete_node", "delete_link") for m in muts)
+    kind = {n["idx"]: n["kind"] for n in o.get("a", {}).get("nodes", [])}
+    raw_static = any(m[0] == "add_link" and m[2] == 0 and (deleted or kind.get(m[1]) in STATIC_SOURCES + (None,))
+                     for m in muts)
+    return (not raw_static, not raw_static and not deleted)
+
+
+def rowpoly_program(row, with_defn=False):
+    """a module with the row-polymorphic function  forall (r : [Type]). (*r) -> (*r)  (body: ONE input, the row
+    variable) declared and called from main at r := row; the Call node has len(row) value inputs, so its static
+    function port is len(row): fewer than the polymorphic body's input count for row = [], more for len(row) >= 2"""
+    n = len(row)
+    ins = list(range(1, n + 1))
+    outs = list(range(n + 1, 2 * n + 1))
+    return {"root": "module", "consts": [], "funcs": [
+        {"name": "rowpoly0", "params": [["list", ["type", "C"]]], "ins": [["rowvar"]], "outs": [["rowvar"]],
+         "poly": "row", "decl": True, "rowvar": True},
+        {"name": "main", "ins": list(row), "outs": list(row),
+         "body": {"ins": ins, "stmts": [
+             {"k": "call", "func": "rowpoly0", "args": ins, "inst": ["fn", list(row), list(row)],
+              "targs": [["seq", [["type", t] for t in row]]], "id": 1, "outs": outs}],
+             "outs": outs, "out_tys": list(row), "defs": []}}]}
 
 
 class C03(RT):
@@ -55,6 +89,23 @@ class C03(RT):
         # the published schema files as Coq constants (shared with C17; fail-closed translator)
         path, _ = schema_tr.regenerate(fw.REPO, fw.COQ, ctx.work)
         return [os.path.relpath(path, fw.VERIF)]
+
+    # -- cases
+    def corpus(self, ctx):
+        P = lambda row, muts=(): {"kind": "hugr", "program": rowpoly_program(row), "muts": [list(m) for m in muts]}
+        return list(super().corpus(ctx)) + [
+            # seeded C03-c / D13: Call._function_port_offset must be the INSTANTIATION's input count: a row-polymorphic
+            # call whose instantiation has fewer (0) and more (2, 3) value inputs than the polymorphic body (1)
+            P([]), P(["B", "I"]), P(["B", "B", "I"]), P(["I"]),
+            # the same with an order edge into the call (order port = value inputs + the static port)
+            P(["B", "I"], [["add_order", 3, 5]]),
+        ]
+
+    def build(self, case):
+        if "program" in case:
+            h = progs.run(case["program"]).hugr
+            return h, [m for m in case.get("muts", []) if c02.apply_mut(h, m)]
+        return super().build(case)
 
     # -- observation: the C02 observation plus every text handed to the schema server
     def observe(self, case, ctx):
@@ -93,7 +144,7 @@ class C03(RT):
                 if len(text) > MAX_COQ_DOC:
                     st["over_size_cap_python_only"] += 1
                     continue
-                parsed[text] = json.loads(text)
+                parsed[text] = cj.parse(text)
                 docs.append((defname, dag.add(parsed[text]), ans == "OK"))
                 st["documents"] += 1
                 st["bytes"] += len(text)
@@ -110,6 +161,7 @@ class C03(RT):
                     if n["md"]:
                         mds.setdefault(L.md(json.dumps(n["md"], sort_keys=True)), dag.members(n["md"]))
             ties, pkg = [], None
+            flags = [static_clauses(case, o) for o in rts]
             if case["kind"] == "hugr" and rts:
                 j = next((t for d, t, _ in obs["schema_docs"] if d == "SerialHugr"), None)
                 if j is not None and j in parsed and "doc" in obs:
@@ -134,12 +186,17 @@ class C03(RT):
             gstrs, gdefs, at = dag.render(root_ids)
         except cj.Unprintable:
             st["unprintable_python_only"] += 1
-            return "(J3 %s [] [] [] [] [] %s None)" % (base, glist(["(Ti None None)"] * len(self._rts(case, obs))))
+            return "(J3 %s [] [] [] [] [] %s None)" % (base, glist("(Ti None None %s %s)" % (gbool(a), gbool(b))
+                                                                    for a, b in map(lambda o: static_clauses(case, o), self._rts(case, obs))))
         gdocs = glist("(Sd %s %d %s)" % (cj.gstring(d), at[i], gbool(ok)) for d, i, ok in docs)
         gops = glist("(Pr %d %d)" % (c, at[i]) for c, i in ops.items())
         gmds = glist("(Pr %d %d)" % (c, at[i]) for c, i in mds.items())
-        gties = glist("(Ti %s %s)" % (cj.gopt_string(e) if isinstance(e, str) else "None",
-                                      "None" if i is None else "(Some %d%%N)" % at[i]) for e, i in ties)
+        gties = glist("(Ti %s %s %s %s)" % (cj.gopt_string(e) if isinstance(e, str) else "None",
+                                            "None" if i is None else "(Some %d%%N)" % at[i], gbool(fe), gbool(fw_))
+                      for (e, i), (fe, fw_) in zip(ties, flags))
+        for fe, fw_ in flags:
+            st["static_edge_clause_applies"] = st.get("static_edge_clause_applies", 0) + int(fe)
+            st["static_wired_clause_applies"] = st.get("static_wired_clause_applies", 0) + int(fw_)
         gpkg = "None" if pkg is None else "(Some (%s, %d%%N))" % (glist("%d%%N" % at[i] for i in pkg[0]), at[pkg[1]])
         lit = "(J3 %s\n %s\n %s\n %s\n %s\n %s\n %s\n %s)" % (base, gstrs, gdefs, gops, gmds, gdocs, gties, gpkg)
         st["literal_bytes"] += len(lit)
@@ -180,7 +237,8 @@ class C03(RT):
         ctx.__dict__["c03_diag_n"] = n + 1
         try:
             res = fw.eval_cases(ctx.work, self.run_module, [self.literal(case, obs, ctx, count=False)], shard=1,
-                                checks=("mon_typed", "mon_py", "mon_coq"), tag="diag%d" % n, case_type=self.case_type)
+                                checks=("mon_typed", "mon_py", "mon_coq", "mon_jidx", "mon_static"), tag="diag%d" % n,
+                                case_type=self.case_type)
         except fw.CoqEvalError:
             return None
         ctx.stats["coq_schema"]["failing_cases_diagnosed"] += 1
@@ -204,6 +262,10 @@ class C03(RT):
                                 json.dumps(case)[:300]))
         if generic and not d["mon_coq"] and d["mon_typed"]:
             return "schema:coq-validator-rejects:python-jsonschema-accepts"
+        if generic and not d["mon_static"] and d["mon_typed"]:
+            return "static-port:not-immediately-after-the-value-inputs"
+        if generic and not d["mon_jidx"] and d["mon_typed"]:
+            return "json-text:not-index-sane"
         return sig
 
     def distribution(self, cases, observations):
